@@ -194,6 +194,15 @@ theorem merge_order (K : Classes) (fs : FS) (dir : List Char) (n : Nat) (st st' 
       ∀ name, m.get name = own.get name ++ ms.flatMap (fun mc => mc.getAll name) :=
   dfsMerge_order K fs dir n st st' entry m h
 
+/-- **Relative includes resolve against the entry file's directory** — at every nesting level
+(`merge_order` passes the same `dir` down): each include value yields one glob pattern, in order,
+itself when absolute, otherwise `Join(entryDir, value)`; never the including file's directory. -/
+theorem relative_includes_resolve_against_entry_dir (dir : List Char) (items : List AItem) (pats : List (List Char))
+    (h : includePatterns dir items = .ok pats) :
+    ∃ vs : List (List Char), items.map AItem.paramStr = vs.map some ∧
+      pats = vs.map (fun v => if isAbsPath v then v else joinPath dir v) :=
+  includePatterns_spec dir items pats h
+
 /-- merging a child appends its items after the father's, section by section -/
 theorem merge_into_appends (father child : SMap) (name : List Char) :
     (mergeInto father child).get name = father.get name ++ child.getAll name :=
